@@ -276,5 +276,5 @@ func TestC11(t *testing.T) {
 		return
 	}
 	r.CheckKnown(parts)
-	r.Rapid("lifetimes", r.N(3000, 100000), c11Prop)
+	r.Rapid("lifetimes", r.N(10000, 150000), c11Prop)
 }
